@@ -141,6 +141,11 @@ def run(ctx):
     # precondition `offset + n_readings < len(buffers)` for every call history; C02) are re-established under this property
     from props import C02 as _C02
     ctx.guard(_C02._capacity_and_slices, ctx, py)
+    # ... and so is the class invariant of the Integrator (each public method from reachable states, trace domain): "integrating
+    # the increments yields the solution" is a statement about Integrator.integrate after ANY history of predict / set_pva /
+    # integrate calls, not about the kernel alone
+    ctx.guard(_C02._methods, ctx, py, True)
+    ctx.guard(_C02._methods, ctx, py, False)
 
     # ---- glue: Integrator passes the right things to the kernel and returns its rows ----------
     ctx.guard(_glue, ctx, py)
